@@ -31,6 +31,7 @@ Apply(e) ==
       [] e.ev = "quiet"   -> PQuiet(SeqToSet(e.blk))
       [] e.ev = "spin"    -> PSpin(e.actor)
       \* "step" / "teardown": controller steps logged for X-level trace validation (Once/MemoXTrace.tla)
+      \* "cfg": granularity of the execution; no condition of OnceP depends on it (OnceP header)
       [] e.ev \in {"leak", "note", "end", "step", "teardown", "cfg"} -> UNCHANGED pvars
       [] OTHER            -> /\ bad' = bad \cup {"Unexplained"}
                              /\ UNCHANGED <<kind, fnst, fnval, cst, cinfo, canc, errRet>>
